@@ -236,7 +236,18 @@ const (
 func startNode(mgr upstream.Manager, ln net.Listener, timeout time.Duration) *pnode {
 	conf := config.Default().Proxy
 	conf.Timeout = timeout
-	conf.AccessLog.Disable = true
+	// access log ON with header filters (legal, non-default): what is logged must not influence what
+	// is proxied.  Block lists on the failure-matrix stack, allow lists (which omit piko's own
+	// headers) on the transparency stack.
+	conf.AccessLog.Disable = false
+	conf.AccessLog.Level = "debug"
+	if timeout < 5*time.Second {
+		conf.AccessLog.RequestHeaders.BlockList = []string{"authorization", "cookie", "accept", "x-piko-endpoint", "x-custom_header"}
+		conf.AccessLog.ResponseHeaders.BlockList = []string{"content-type", "set-cookie"}
+	} else {
+		conf.AccessLog.RequestHeaders.AllowList = []string{"user-agent"}
+		conf.AccessLog.ResponseHeaders.AllowList = []string{"x-none"}
+	}
 	srv := proxy.NewServer(mgr, conf, nil, nil, nil, log.NewNopLogger())
 	go func() { _ = srv.Serve(ln) }()
 	return &pnode{srv: srv, addr: ln.Addr().String()}
@@ -277,8 +288,10 @@ func newStack(timeout time.Duration) *stack {
 		panic(err)
 	}
 	aconf := agentconfig.ListenerConfig{EndpointID: "agent", Addr: "http://" + recAddr, Timeout: timeout}
-	aconf.AccessLog.Disable = true
+	aconf.AccessLog.Disable = false
 	aconf.AccessLog.Level = "info"
+	aconf.AccessLog.RequestHeaders.AllowList = []string{"user-agent"}
+	aconf.AccessLog.ResponseHeaders.BlockList = []string{"content-type"}
 	asrv := reverseproxy.NewServer(aconf, reverseproxy.NewMetrics("verif"), log.NewNopLogger())
 	go func() { _ = asrv.Serve(lnG) }()
 	s.agent = lnG.Addr().String()
@@ -289,8 +302,10 @@ func newStack(timeout time.Duration) *stack {
 			panic(err)
 		}
 		c := agentconfig.ListenerConfig{EndpointID: "agent", Addr: addr, Timeout: timeout}
-		c.AccessLog.Disable = true
+		c.AccessLog.Disable = false
 		c.AccessLog.Level = "info"
+		c.AccessLog.RequestHeaders.BlockList = []string{"authorization", "cookie", "accept"}
+		c.AccessLog.ResponseHeaders.AllowList = []string{"x-none"}
 		c.TLS.InsecureSkipVerify = true
 		srv := reverseproxy.NewServer(c, reverseproxy.NewMetrics("verif"), log.NewNopLogger())
 		go func() { _ = srv.Serve(ln) }()
